@@ -63,9 +63,18 @@ def generate(rng, tier):
             rv = [None if v is None else float(v) for v in rv]
         lname = f"k{j}"
         rname = lname if rng.random() < 0.6 else f"r{j}"
+        if j == 0 and rng.random() < 0.04:
+            rname = rng.choice(["_index_", "_i_", "index", "_id_"])       # a key column named like a temporary column a library might use internally
+            tags.add("internal-looking-key-name")
         lspec.append((lname, kind, lv))
         rspec.append((rname, rkind, rv))
         by.append(lname if lname == rname else rng.choice([(lname, rname), [lname, rname]]))     # tuple or list form
+        if lname != rname and rng.random() < 0.08:
+            # the same LEFT column paired with two right columns: left.k == right.r and left.k == right.rb
+            rv2 = [v if rng.random() < 0.7 else rng.choice(rp + [v]) for v in rv]
+            rspec.append((f"r{j}b", rkind, rv2))
+            by.append((lname, f"r{j}b"))
+            tags.add("left-column-in-two-pairs")
     for j in range(rng.randint(0, 2)):
         kind = rng.choice(gen.KINDS_KEY)
         lspec.append((f"lp{j}", kind, gen.gen_values(rng, kind, nl, rng.choice(gen.NA_PATTERNS), "few", 0.2, tags)))
@@ -75,6 +84,13 @@ def generate(rng, tier):
         if any(s[0] == name for s in rspec): continue
         rspec.append((name, kind, gen.gen_values(rng, kind, nr, rng.choice(gen.NA_PATTERNS), "few", 0.2, tags)))
     join = rng.choice(JOINS)
+    if join == "full_join" and "left-column-in-two-pairs" in tags:
+        # which of two differing right values a right-only row shows under the one left name is not defined: not generated for full_join
+        import re as _re
+        extra = {b[1] for b in by if not isinstance(b, str) and _re.fullmatch(r"r\d+b", b[1])}
+        by = [b for b in by if isinstance(b, str) or b[1] not in extra]
+        rspec = [s_ for s_ in rspec if s_[0] not in extra]
+        tags.discard("left-column-in-two-pairs")
     ren = [b for b in by if not isinstance(b, str)]
     if ren and rng.random() < 0.3 and not any(s_[0] == ren[0][0] for s_ in rspec):
         # the right frame has a column of its own that is called like the left key of a (left, right) renamed pair
